@@ -280,6 +280,9 @@ def tmpl_forward_jump(rng):
         prog += [(1, 1, d2, cond(lab2))] + filler()
         if rng.random() < 0.4:
             prog += [(1, 1, d1, cond(lab1))]
+        if rng.random() < 0.5:
+            # a ♡ after the forward jump (often of distance exactly 1): it must return to the forward jump's source
+            prog += [(0, 1, rng.choice([0, 1, 65]), None)] * rng.randint(0, 2) + [(1, 1, rng.choice([1, 2, 4]), rng.choice([13, ('?', 13, None), ('?', None, 13)]))]
         m = Machine(prog, '', Limits(steps=400))
         o, e, end = m.run()
         if not end.startswith('notadmitted') and m.st['forward_jumps']:
@@ -320,10 +323,29 @@ def tmpl_nan_variants(rng, allow_input=True):
     return prog
 
 
-def tmpl_stack0_data(rng):
+def tmpl_stack0_data(rng, nan_share=0.2):
     """Stack 0 used as an ordinary data stack before (and while) it doubles as the input buffer: values are
     pushed onto it, it is selected, and then printed from / popped by multi-operand commands / compared in
     areas while it is still non-empty, finally running dry so that the next pops read input lines."""
+    if rng.random() < nan_share:
+        # stack 0 is the selected stack; part of an input line is consumed, then NaN (and ordinary values) are pushed ONTO
+        # stack 0 while the rest of the line is still unread, and everything is popped and printed again: NaN must be kept
+        # (the stack is not empty: unread characters of the line are below it)
+        prog = [(5, 1, 0, None)] + [(1, 1, 1, None)] * rng.randint(1, 3)
+        for _ in range(rng.randint(1, 2)):
+            r = rng.random()
+            if r < 0.5:
+                prog += [(0, 1, 0, None), (4, 1, rng.choice([3, 4, 0]), None)]             # 0, then 1/0 back onto stack 0
+            elif r < 0.7:
+                prog += [(0, 1, 0, None), (0, 1, 0, None), (4, 2, rng.choice([3, 0]), None)]
+            elif r < 0.85:
+                prog += [(0, 1, rng.choice([65, 66]), None), (0, 1, 0, None), (4, 1, 3, None)]
+            else:
+                prog += [(5, 1, 4, None), (1, 2, 0, None), (5, 1, 0, None)]                # NaN sum from stack 4 sent to stack 0
+        prog += [(1, 1, rng.choice([1, 1, 2]), None)] * rng.randint(2, 6)
+        if rng.random() < 0.3:
+            prog += [(1, 2, 1, None)]
+        return prog
     if rng.random() < 0.35:
         # few own values on stack 0, then ONE multi-operand command that needs more than that (it crosses from
         # own values into the input line) and whose area keeps popping (possibly past the end of the line)
@@ -867,7 +889,7 @@ STDINS = ['', 'ab\n', '\n\n\nx\n\n', 'a\n\nb', '\n', 'x' * 300 + '\ny', 'a\nxyz\
           '{}"\\\n%s\n', '\u0085 x\x0cy\x1cz\n']
 
 
-MULTILINE = ['a\nxyz\n', 'AB\nCCCC\nD \n', 'q\nrs\ntuv\n', 'line1\nline2\nline3\nline4\nline5\n', '\n\nab\n', 'x\r\ny\r\nz', '가\n나다\n😀\n']
+MULTILINE = ['한B\n', '한글 텍스트\nabc\n', '😀😀x\ny\n', 'é한😀\n\nz', '\u0085한\r\n가', 'a\nxyz\n', 'AB\nCCCC\nD \n', 'q\nrs\ntuv\n', 'line1\nline2\nline3\nline4\nline5\n', '\n\nab\n', 'x\r\ny\r\nz', '가\n나다\n😀\n']
 
 
 def gen_stdin(rng):
